@@ -109,10 +109,13 @@ def check_property(spec, tier, seed):
                              timeout=tcfg['timeout'], per_path=tcfg.get('per_path'),
                              part=part, nparts=nparts, kind='main', hname=h['name'], tier=tier))
         if h.get('reach'):
+            # reach_parts: one vacuity twin per partition (each partition must reach its success path)
+            rparts = tcfg.get('reach_parts', 1)
             for rf in (h['reach'] if isinstance(h['reach'], list) else [h['reach']]):
-                jobs.append(dict(engine=h['engine'], module=h['module'], function=rf,
-                                 timeout=tcfg.get('reach_timeout', 60), per_path=tcfg.get('per_path'),
-                                 part=0, nparts=1, kind='reach', hname=h['name'], tier=tier))
+                for rp in range(rparts):
+                    jobs.append(dict(engine=h['engine'], module=h['module'], function=rf,
+                                     timeout=tcfg.get('reach_timeout', 60), per_path=tcfg.get('per_path'),
+                                     part=rp, nparts=rparts, kind='reach', hname=h['name'], tier=tier))
     # reach twins first (cheap), then long jobs first
     jobs.sort(key=lambda j: (j['kind'] != 'reach', -j['timeout']))
     if seed:
